@@ -1,7 +1,7 @@
 """C15 — signature text (Display / FromStr) against Model/SigText.v, and the sign -> hash CLI pipeline."""
 from coqrun import ni, tx
 from gen import pyref, txgen
-from gen.util import SECP_N, lib_vs_model, rbytes, short
+from gen.util import SECP_N, comparison_path_values, lib_vs_model, rbytes, short
 
 DRIVERS = ['C15']
 NEEDS = dict(cli=True, harness=True, shim=False, release=False)
@@ -97,6 +97,10 @@ def run(ctx):
         bad.append(("0x%064x%064x1c" % (5, x), None, "scalar/half-pattern-out-of-range"))
     for x in ((NHI << 128) | (NLO - 1), (NHI << 128), ((NHI - 1) << 128) | ((1 << 128) - 1)):
         bad.append(("0x%064x%064x1b" % (x, x), (x, x, 0), "scalar/half-pattern-in-range"))
+    for bits in (64, 128):
+        for x in comparison_path_values(N, bits):
+            bad.append(("0x%064x%064x1b" % (x, 7), (x, 7, 0) if 0 < x < N else None, "scalar/comparison-path"))
+            bad.append(("0x%064x%064x1c" % (7, x), (7, x, 1) if 0 < x < N else None, "scalar/comparison-path"))
     for x in (0, N, N + 1, (1 << 256) - 1):
         bad.append(("0x%064x%064x1b" % (x, 5), None, "scalar/r-out-of-range"))
         bad.append(("0x%064x%064x1c" % (5, x), None, "scalar/s-out-of-range"))
